@@ -33,6 +33,10 @@ enum pup_op {
                      // e = flags (1 = read stdin to EOF verifying pattern, 2 = echo stdin to stdout,
                      // 4 = close stdout before stderr), a = exit code. Result written to <ctl>/result.
   PUP_FDS = 10,      // re-snapshot descriptors into <ctl>/fds
+  PUP_HOLDER = 11,   // a = stream (1|2): fork a descendant that keeps only that stream open (not the
+                     // library's exit handle, not the control channel), blocks on the FIFO <ctl>/holder
+                     // and, when a byte 'w' arrives there, writes "late\n" to the stream and exits
+                     // ('x': just exits). Ack v[0] = its pid.
 };
 
 struct pup_cmd {
